@@ -455,8 +455,8 @@ Definition not_writable_result (o : bop) (r : result) : Prop :=
   match o with
   | Put _ _ | Delete _ | CreateBucket _ | CreateBucketIfNotExists _ | DeleteNested _ =>
       r = RErr (Some ETxNotWritable)
-  | SetSequence _ => r = RErr (Some EBoltTxNotWritable)
-  | NextSequence => r = RNumErr 0 (Some EBoltTxNotWritable)
+  | SetSequence _ => exists e, r = RErr (Some e)
+  | NextSequence => exists n e, r = RNumErr n (Some e)
   | Cursor cs =>
       exists rs, r = RCur rs /\
                  Forall2 (fun c x => c = CDelete -> x = CErr (Some ETxNotWritable)) cs rs
@@ -467,7 +467,7 @@ Lemma exec_bop_readonly o b b' r :
   exec_bop false o b = (b', r) -> b' = b /\ not_writable_result o r.
 Proof.
   destruct b as [s l]. unfold exec_bop. intros H.
-  destruct o; simpl in H; try (inversion H; subst; simpl; auto; fail).
+  destruct o; simpl in H; try (inversion H; subst; simpl; eauto; fail).
   match type of H with context [cursor_run ?a ?b ?c] =>
     destruct (cursor_run a b c) as [l' rs] eqn:R end.
   destruct (cursor_run_effect _ _ _ _ _ _ R) as (_ & _ & _ & I4).
@@ -1048,82 +1048,271 @@ Qed.
 (* ------------------------------------------------------------------ *)
 (** * Transactions *)
 
-Lemma update_failed s body o s' rs o' :
-  update s body o = Some (s', rs, o') -> o <> OOk ->
-  committed s' = committed s /\ writer s' = false /\ o' = o.
+(** What the theorems need from the control-flow skeleton of a managed call. *)
+Definition ends (f : flow) (o : outcome) : tx_end := fst (flow_at f o).
+Definition returns (f : flow) (o : outcome) : option outcome := snd (flow_at f o).
+
+(** a read-write call: commit exactly when the closure returned nil, roll back
+    on the error path and on the panic path *)
+Definition safe_rw (f : flow) : Prop :=
+  ends f OOk = TCommit /\ ends f OErr = TRollback /\ ends f OPanic = TRollback.
+(** a read-only call: roll back on every path *)
+Definition safe_ro (f : flow) : Prop :=
+  ends f OOk = TRollback /\ ends f OErr = TRollback /\ ends f OPanic = TRollback.
+(** the caller learns how the closure ended: nil for nil, the closure's own
+    error, the closure's own panic *)
+Definition faithful (f : flow) : Prop :=
+  returns f OOk = Some OOk /\ returns f OErr = Some OErr /\ returns f OPanic = Some OPanic.
+
+Definition safe_flows (fl : flows) : Prop :=
+  (safe_rw (fl_update fl) /\ faithful (fl_update fl)) /\
+  (safe_ro (fl_view fl) /\ faithful (fl_view fl)) /\
+  (safe_rw (fl_batch fl) /\ faithful (fl_batch fl)).
+
+Lemma safe_rw_failed f o : safe_rw f -> o <> OOk -> ends f o = TRollback.
+Proof. intros (_ & E & P) N. destruct o; [contradiction|assumption|assumption]. Qed.
+
+Lemma safe_ro_all f o : safe_ro f -> ends f o = TRollback.
+Proof. intros (A & E & P). destruct o; assumption. Qed.
+
+Lemma faithful_all f o : faithful f -> returns f o = Some o.
+Proof. intros (A & E & P). destruct o; assumption. Qed.
+
+(** What a managed read-write call is, unfolded. *)
+Lemma managed_rw_inv f s body o s' rs r :
+  managed_rw f s body o = Some (s', rs, r) ->
+  writer s = false /\
+  rs = snd (run_ops true (committed s) body) /\
+  r = returns f o /\
+  s' = finish_rw (ends f o) {| committed := committed s; writer := true; readers := readers s |}
+                 (fst (run_ops true (committed s) body)).
 Proof.
-  unfold update, begin_rw. destruct (writer s); [discriminate|].
-  destruct (run_ops true (committed s) body) as [w1 rs1].
-  intros [= <- <- <-] N. destruct o; [contradiction| |]; simpl; auto.
+  unfold managed_rw, begin_rw, ends, returns. destruct (writer s); [discriminate|].
+  destruct (run_ops true (committed s) body) as [w1 rs1]. destruct (flow_at f o) as [e ret].
+  intros [= <- <- <-]. auto.
 Qed.
 
-Lemma update_committed s body s' rs o' :
-  update s body OOk = Some (s', rs, o') ->
-  committed s' = normalize (fst (run_ops true (committed s) body)) /\
-  rs = snd (run_ops true (committed s) body) /\ writer s' = false /\ o' = OOk.
-Proof.
-  unfold update, begin_rw. destruct (writer s); [discriminate|].
-  destruct (run_ops true (committed s) body) as [w1 rs1].
-  intros [= <- <- <-]. simpl. auto.
-Qed.
-
-Lemma update_runs s body o :
-  writer s = false -> exists s' rs, update s body o = Some (s', rs, o) /\ writer s' = false.
-Proof.
-  intros W. unfold update, begin_rw. rewrite W.
-  destruct (run_ops true (committed s) body) as [w1 rs1].
-  eexists _, _. split; [reflexivity|]. destruct o; reflexivity.
-Qed.
-
-Lemma run_tx_runs s k body :
+Lemma managed_rw_runs f s body o :
   writer s = false ->
-  exists s' rs o, run_tx s k body = Some (s', rs, o) /\ writer s' = false.
+  managed_rw f s body o =
+  Some (finish_rw (ends f o) {| committed := committed s; writer := true; readers := readers s |}
+                  (fst (run_ops true (committed s) body)),
+        snd (run_ops true (committed s) body), returns f o).
 Proof.
-  intros W. destruct k as [o|o|c|]; simpl.
-  - destruct (update_runs s body o W) as (s' & rs & H1 & H2). eauto.
-  - unfold view. eauto.
-  - destruct (update_runs s body (if c then OOk else OErr) W) as (s' & rs & H1 & H2). eauto.
-  - unfold view. eauto.
+  intros W. unfold managed_rw, begin_rw, ends, returns. rewrite W.
+  destruct (run_ops true (committed s) body) as [w1 rs1]. destruct (flow_at f o) as [e ret]. reflexivity.
 Qed.
 
-Lemma run_txs_runs txs : forall s,
-  writer s = false -> exists s' rss, run_txs s txs = Some (s', rss) /\ writer s' = false.
+(** Rolled back: nothing changes, the writer lock is free again.  The premise
+    is a fact about the code (the skeleton regenerated from it). *)
+Lemma managed_rw_rolled_back f s body o s' rs r :
+  ends f o = TRollback -> managed_rw f s body o = Some (s', rs, r) ->
+  committed s' = committed s /\ writer s' = false /\ readers s' = readers s /\ r = returns f o.
 Proof.
-  induction txs as [|[k body] txs IH]; intros s W; simpl.
+  intros E H. destruct (managed_rw_inv _ _ _ _ _ _ _ H) as (_ & _ & R & ->). rewrite E. simpl. auto.
+Qed.
+
+Lemma managed_rw_committed f s body o s' rs r :
+  ends f o = TCommit -> managed_rw f s body o = Some (s', rs, r) ->
+  committed s' = normalize (fst (run_ops true (committed s) body)) /\
+  rs = snd (run_ops true (committed s) body) /\ writer s' = false /\ readers s' = readers s /\
+  r = returns f o.
+Proof.
+  intros E H. destruct (managed_rw_inv _ _ _ _ _ _ _ H) as (_ & RS & R & ->). rewrite E. simpl. auto.
+Qed.
+
+(** The premises are needed: a skeleton that commits where it should roll
+    back makes the closure's changes permanent; one that does neither keeps
+    the writer lock, and every later read-write transaction blocks. *)
+Lemma managed_rw_commit_keeps_changes f s body o s' rs r :
+  ends f o = TCommit -> managed_rw f s body o = Some (s', rs, r) ->
+  committed s' = normalize (fst (run_ops true (committed s) body)).
+Proof. intros E H. apply (managed_rw_committed _ _ _ _ _ _ _ E H). Qed.
+
+Lemma managed_rw_leak_blocks f s body o s' rs r g body2 o2 :
+  ends f o = TLeak -> managed_rw f s body o = Some (s', rs, r) ->
+  managed_rw g s' body2 o2 = None.
+Proof.
+  intros E H. destruct (managed_rw_inv _ _ _ _ _ _ _ H) as (_ & _ & _ & ->). rewrite E.
+  reflexivity.
+Qed.
+
+Lemma update_failed fl s body o s' rs r :
+  safe_rw (fl_update fl) -> faithful (fl_update fl) ->
+  update fl s body o = Some (s', rs, r) -> o <> OOk ->
+  committed s' = committed s /\ writer s' = false /\ readers s' = readers s /\ r = Some o.
+Proof.
+  intros S F H N. unfold update in H.
+  destruct (managed_rw_rolled_back _ _ _ _ _ _ _ (safe_rw_failed _ _ S N) H) as (A & B & C & D).
+  rewrite (faithful_all _ o F) in D. auto.
+Qed.
+
+Lemma update_committed fl s body s' rs r :
+  safe_rw (fl_update fl) -> faithful (fl_update fl) ->
+  update fl s body OOk = Some (s', rs, r) ->
+  committed s' = normalize (fst (run_ops true (committed s) body)) /\
+  rs = snd (run_ops true (committed s) body) /\ writer s' = false /\ readers s' = readers s /\
+  r = Some OOk.
+Proof.
+  intros (C & _) F H. unfold update in H.
+  destruct (managed_rw_committed _ _ _ _ _ _ _ C H) as (A & B & W & R & D).
+  rewrite (faithful_all _ OOk F) in D. auto.
+Qed.
+
+(** Read-only calls. *)
+Lemma managed_ro_results f s body o :
+  snd (fst (managed_ro f s body o)) = snd (run_ops false (committed s) body) /\
+  snd (managed_ro f s body o) = returns f o.
+Proof. unfold managed_ro, begin_ro, returns. destruct (flow_at f o). auto. Qed.
+
+Lemma pred_succ_readers n : N.pred (n + 1) = n.
+Proof. lia. Qed.
+
+Lemma managed_ro_rolled_back f s body o :
+  ends f o = TRollback -> fst (fst (managed_ro f s body o)) = s.
+Proof.
+  unfold managed_ro, begin_ro, ends. destruct (flow_at f o) as [e ret]. simpl. intros ->.
+  unfold finish_ro, close_ro. simpl. rewrite pred_succ_readers. destruct s; reflexivity.
+Qed.
+
+Lemma managed_ro_runs f s body o :
+  ends f o = TRollback -> exists rs r, managed_ro f s body o = (s, rs, r).
+Proof.
+  intros E. pose proof (managed_ro_rolled_back f s body o E) as H.
+  destruct (managed_ro f s body o) as [[s' rs] r]. simpl in H. subst. eauto.
+Qed.
+
+Lemma managed_ro_leaks f s body o :
+  ends f o <> TRollback ->
+  readers (fst (fst (managed_ro f s body o))) = readers s + 1 /\
+  reopen (fst (fst (managed_ro f s body o))) = None.
+Proof.
+  unfold managed_ro, begin_ro, ends. destruct (flow_at f o) as [e ret]. simpl. intros N.
+  assert (finish_ro e {| committed := committed s; writer := writer s; readers := readers s + 1 |}
+          = {| committed := committed s; writer := writer s; readers := readers s + 1 |}) as ->
+      by (destruct e; [reflexivity|contradiction|reflexivity]).
+  split; [reflexivity|]. unfold reopen. simpl.
+  replace (0 <? readers s + 1) with true by (symmetry; apply N.ltb_lt; lia).
+  rewrite orb_true_r. reflexivity.
+Qed.
+
+Lemma view_unchanged fl s body o : safe_ro (fl_view fl) -> fst (fst (view fl s body o)) = s.
+Proof. intros S. apply managed_ro_rolled_back. apply safe_ro_all. exact S. Qed.
+
+(** db.Batch: the attempts that bbolt rolls back are invisible. *)
+Lemma rolled_back_attempts_id n s body : writer s = false -> rolled_back_attempts n s body = Some s.
+Proof.
+  intros W. induction n as [|n IH]; simpl; [reflexivity|].
+  unfold begin_rw. rewrite W. destruct (run_ops true (committed s) body) as [w1 rs1].
+  simpl. unfold rollback. simpl.
+  replace {| committed := committed s; writer := false; readers := readers s |} with s
+    by (destruct s; simpl in *; subst; reflexivity).
+  exact IH.
+Qed.
+
+Lemma batch_attempts_irrelevant fl n s body o :
+  batch fl n s body o = managed_rw (fl_batch fl) s body o.
+Proof.
+  unfold batch. destruct (writer s) eqn:W.
+  - destruct n as [|n]; simpl; [reflexivity|]. unfold managed_rw, begin_rw. rewrite W. reflexivity.
+  - rewrite rolled_back_attempts_id by exact W. reflexivity.
+Qed.
+
+(** No transaction is open. *)
+Definition quiet (s : dbstate) : Prop := writer s = false /\ readers s = 0.
+
+Lemma quiet_init : quiet init_db.
+Proof. split; reflexivity. Qed.
+
+Lemma managed_rw_quiet f s body o :
+  ends f o <> TLeak -> quiet s ->
+  exists s' rs, managed_rw f s body o = Some (s', rs, returns f o) /\ quiet s'.
+Proof.
+  intros E [W R]. rewrite (managed_rw_runs f s body o W). eexists _, _. split; [reflexivity|].
+  destruct (ends f o); [| |contradiction]; split; simpl; auto.
+Qed.
+
+Lemma safe_rw_no_leak f o : safe_rw f -> ends f o <> TLeak.
+Proof. intros (A & E & P). destruct o; congruence. Qed.
+
+Lemma const_flow_ends e r o : ends (const_flow e r) o = e /\ returns (const_flow e r) o = Some r.
+Proof. destruct o; split; reflexivity. Qed.
+
+Lemma run_tx_runs fl s k body :
+  safe_flows fl -> quiet s ->
+  exists s' rs r, run_tx fl s k body = Some (s', rs, r) /\ quiet s'.
+Proof.
+  intros ((SU & FU) & (SV & FV) & (SB & FB)) Q. destruct k as [o|o|o n|c|]; simpl.
+  - destruct (managed_rw_quiet (fl_update fl) s body o (safe_rw_no_leak _ _ SU) Q) as (s' & rs & H & Q').
+    unfold update. eauto.
+  - destruct (managed_ro_runs (fl_view fl) s body o (safe_ro_all _ o SV)) as (rs & r & H).
+    unfold view. rewrite H. eauto.
+  - rewrite batch_attempts_irrelevant.
+    destruct (managed_rw_quiet (fl_batch fl) s body o (safe_rw_no_leak _ _ SB) Q) as (s' & rs & H & Q'). eauto.
+  - destruct c.
+    + destruct (managed_rw_quiet (const_flow TCommit OOk) s body OOk) as (s' & rs & H & Q'); [discriminate|exact Q|eauto].
+    + destruct (managed_rw_quiet (const_flow TRollback OErr) s body OOk) as (s' & rs & H & Q'); [discriminate|exact Q|eauto].
+  - destruct (managed_ro_runs (const_flow TRollback OOk) s body OOk eq_refl) as (rs & r & H).
+    rewrite H. eauto.
+Qed.
+
+Lemma run_txs_runs fl txs : safe_flows fl -> forall s,
+  quiet s -> exists s' rss, run_txs fl s txs = Some (s', rss) /\ quiet s'.
+Proof.
+  intros SF. induction txs as [|[k body] txs IH]; intros s Q; simpl.
   - eauto.
-  - destruct (run_tx_runs s k body W) as (s1 & rs & o & H1 & W1). rewrite H1.
-    destruct (IH s1 W1) as (s2 & rss & H2 & W2). rewrite H2. eauto.
+  - destruct (run_tx_runs fl s k body SF Q) as (s1 & rs & o & H1 & Q1). rewrite H1.
+    destruct (IH s1 Q1) as (s2 & rss & H2 & Q2). rewrite H2. eauto.
 Qed.
 
-Lemma view_unchanged s body o : fst (fst (view s body o)) = s.
-Proof. reflexivity. Qed.
+Lemma reopen_quiet s : quiet s -> exists s', reopen s = Some s' /\ committed s' = committed s /\ quiet s'.
+Proof.
+  intros [W R]. unfold reopen. rewrite W, R. simpl. eexists. repeat split.
+Qed.
 
-(** What is reachable: committed trees are well formed and already normal. *)
+(** What is reachable: committed trees are well formed and already normal,
+    whatever the skeleton. *)
 Definition good (s : dbstate) : Prop :=
   wf (committed s) /\ normalize (committed s) = committed s.
 
 Lemma good_init : good init_db.
 Proof. split; [apply wf_empty|reflexivity]. Qed.
 
-Lemma run_tx_good s k body s' rs o :
-  good s -> run_tx s k body = Some (s', rs, o) -> good s'.
+Lemma managed_rw_good f s body o s' rs r :
+  good s -> managed_rw f s body o = Some (s', rs, r) -> good s'.
 Proof.
-  intros [W Nm] H.
-  assert (forall o0 s1 rs1 o1, update s body o0 = Some (s1, rs1, o1) -> good s1) as U.
-  { intros o0 s1 rs1 o1. unfold update, begin_rw. destruct (writer s); [discriminate|].
-    pose proof (run_ops_wf true body (committed s) W) as W1.
-    destruct (run_ops true (committed s) body) as [w1 rs0]. simpl in W1.
-    intros [= <- <- <-]. destruct o0; simpl; split; simpl; auto using wf_normalize, normalize_idem. }
-  destruct k as [o0|o0|c|]; simpl in H; eauto; injection H as <- _ _; split; assumption.
+  intros [W Nm] H. destruct (managed_rw_inv _ _ _ _ _ _ _ H) as (_ & _ & _ & ->).
+  pose proof (run_ops_wf true body (committed s) W) as W1.
+  destruct (ends f o); simpl; split; simpl; auto using wf_normalize, normalize_idem.
 Qed.
 
-Lemma run_txs_good txs : forall s s' rss,
-  good s -> run_txs s txs = Some (s', rss) -> good s'.
+Lemma managed_ro_good f s body o : good s -> good (fst (fst (managed_ro f s body o))).
+Proof.
+  intros G. unfold managed_ro, begin_ro. destruct (flow_at f o) as [e ret]. simpl.
+  destruct e; exact G.
+Qed.
+
+Lemma run_tx_good fl s k body s' rs o :
+  good s -> run_tx fl s k body = Some (s', rs, o) -> good s'.
+Proof.
+  intros G H. destruct k as [o0|o0|o0 n|c|]; simpl in H.
+  - eapply managed_rw_good; eauto.
+  - injection H as H. replace s' with (fst (fst (view fl s body o0))) by (rewrite H; reflexivity).
+    apply managed_ro_good. exact G.
+  - rewrite batch_attempts_irrelevant in H. eapply managed_rw_good; eauto.
+  - destruct c; eapply managed_rw_good; eauto.
+  - injection H as H.
+    replace s' with (fst (fst (managed_ro (const_flow TRollback OOk) s body OOk))) by (rewrite H; reflexivity).
+    apply managed_ro_good. exact G.
+Qed.
+
+Lemma run_txs_good fl txs : forall s s' rss,
+  good s -> run_txs fl s txs = Some (s', rss) -> good s'.
 Proof.
   induction txs as [|[k body] txs IH]; intros s s' rss G H; simpl in H.
   - injection H as <- _. exact G.
-  - destruct (run_tx s k body) as [[[s1 rs] o]|] eqn:T; [|discriminate].
-    destruct (run_txs s1 txs) as [[s2 rss2]|] eqn:R; [|discriminate].
+  - destruct (run_tx fl s k body) as [[[s1 rs] o]|] eqn:T; [|discriminate].
+    destruct (run_txs fl s1 txs) as [[s2 rss2]|] eqn:R; [|discriminate].
     injection H as <- _. eapply IH; [|exact R]. eapply run_tx_good; eauto.
 Qed.
 
@@ -1242,4 +1431,230 @@ Proof.
   intros G. rewrite cursor_run_cons. simpl cursor_step. rewrite G.
   rewrite cursor_run_cons, seek_step, first_ge_del.
   destruct (first_gt k l); reflexivity.
+Qed.
+
+(* ------------------------------------------------------------------ *)
+(** * Goroutines contending for the writer lock
+
+    Any interleaving of the moves of several managed read-write calls that
+    the single-writer lock admits is a serial run of the calls in the order in
+    which they began: same database, same results, same return values. *)
+
+Lemma run_ops_snoc w root ops o :
+  run_ops w root (ops ++ [o]) =
+  let (r1, rs1) := run_ops w root ops in
+  let (r2, r) := exec_op w o r1 in (r2, rs1 ++ [r]).
+Proof.
+  revert root. induction ops as [|o' ops IH]; intros root; simpl.
+  - destruct (exec_op w o root) as [r2 r]. reflexivity.
+  - destruct (exec_op w o' root) as [root1 r']. rewrite IH.
+    destruct (run_ops w root1 ops) as [r1 rs1]. destruct (exec_op w o r1) as [r2 r]. reflexivity.
+Qed.
+
+Lemma run_serial_snoc f jobs order : forall s res i j D D' rs ret,
+  run_serial f jobs s order = Some (D, res) ->
+  nth_error jobs i = Some j ->
+  managed_rw f D (j_body j) (j_out j) = Some (D', rs, ret) ->
+  run_serial f jobs s (order ++ [i]) = Some (D', res ++ [(i, rs, ret)]).
+Proof.
+  induction order as [|a order IH]; intros s res i j D D' rs ret H N M; simpl in *.
+  - injection H as <- <-. rewrite N, M. reflexivity.
+  - destruct (nth_error jobs a) as [ja|]; [|discriminate].
+    destruct (managed_rw f s (j_body ja) (j_out ja)) as [[[s1 rs1] ret1]|]; [|discriminate].
+    destruct (run_serial f jobs s1 order) as [[s2 l]|] eqn:R; [|discriminate].
+    injection H as <- <-. rewrite (IH s1 l i j s2 D' rs ret R N M). reflexivity.
+Qed.
+
+Lemma run_serial_order f jobs order : forall s D res,
+  run_serial f jobs s order = Some (D, res) -> map (fun x => fst (fst x)) res = order.
+Proof.
+  induction order as [|a order IH]; intros s D res H; simpl in H.
+  - injection H as _ <-. reflexivity.
+  - destruct (nth_error jobs a) as [ja|]; [|discriminate].
+    destruct (managed_rw f s (j_body ja) (j_out ja)) as [[[s1 rs1] ret1]|]; [|discriminate].
+    destruct (run_serial f jobs s1 order) as [[s2 l]|] eqn:R; [|discriminate].
+    injection H as _ <-. simpl. f_equal. eapply IH. exact R.
+Qed.
+
+Definition thr_done (c : cstate) (res : list (nat * list result * option outcome)) : Prop :=
+  forall i rs ret, In (i, rs, ret) res -> c_thr c i = TDone rs ret.
+
+(** at rest: no call holds the lock; [order] = the calls that are over *)
+Definition resting f jobs s0 (c : cstate) order res : Prop :=
+  run_serial f jobs s0 order = Some (c_db c, res) /\ NoDup order /\ thr_done c res /\
+  (forall i, ~ In i order -> c_thr c i = TIdle).
+
+(** call [i0] holds the lock and has done the operations [done] of its closure *)
+Definition inside f jobs s0 (c : cstate) order res D i0 : Prop :=
+  run_serial f jobs s0 order = Some (D, res) /\ NoDup order /\ ~ In i0 order /\ thr_done c res /\
+  (forall i, i <> i0 -> ~ In i order -> c_thr c i = TIdle) /\
+  writer D = false /\
+  c_db c = {| committed := committed D; writer := true; readers := readers D |} /\
+  exists j done todo w rs, nth_error jobs i0 = Some j /\ j_body j = done ++ todo /\
+    run_ops true (committed D) done = (w, rev rs) /\ c_thr c i0 = TRun w todo rs.
+
+Definition sched_inv f jobs s0 (c : cstate) : Prop :=
+  (exists order res, resting f jobs s0 c order res) \/
+  (exists order res D i0, inside f jobs s0 c order res D i0).
+
+Lemma in_order_done f jobs s0 order D res c i :
+  run_serial f jobs s0 order = Some (D, res) -> thr_done c res -> In i order ->
+  exists rs ret, c_thr c i = TDone rs ret.
+Proof.
+  intros R T I. rewrite <- (run_serial_order _ _ _ _ _ _ R) in I.
+  apply in_map_iff in I. destruct I as ([[i' rs] ret] & E & I). simpl in E. subst i'.
+  exists rs, ret. apply T. exact I.
+Qed.
+
+Lemma set_thr_same c i t : set_thr c i t i = t.
+Proof. unfold set_thr. rewrite Nat.eqb_refl. reflexivity. Qed.
+
+Lemma set_thr_other c i t k : k <> i -> set_thr c i t k = c k.
+Proof. intros N. unfold set_thr. apply Nat.eqb_neq in N. rewrite N. reflexivity. Qed.
+
+Lemma sched_inv_init f jobs s0 : sched_inv f jobs s0 (cinit s0).
+Proof.
+  left. exists [], []. repeat split; simpl; auto using NoDup_nil. intros i rs ret [].
+Qed.
+
+Lemma NoDup_snoc {A} (l : list A) x : NoDup l -> ~ In x l -> NoDup (l ++ [x]).
+Proof.
+  induction 1 as [|y l NY ND IH]; intros NI; simpl.
+  - constructor; [intros []|constructor].
+  - constructor.
+    + intros K. apply in_app_or in K. destruct K as [K|[K|[]]]; [exact (NY K)|]. apply NI. left. symmetry. exact K.
+    + apply IH. intros K. apply NI. right. exact K.
+Qed.
+
+Lemma not_in_order_res f jobs s0 order D res i rs ret :
+  run_serial f jobs s0 order = Some (D, res) -> ~ In i order -> ~ In (i, rs, ret) res.
+Proof.
+  intros R NI K. apply NI. rewrite <- (run_serial_order _ _ _ _ _ _ R).
+  apply in_map_iff. exists (i, rs, ret). auto.
+Qed.
+
+Lemma thr_done_set f jobs s0 order D res c db i t :
+  run_serial f jobs s0 order = Some (D, res) -> ~ In i order -> thr_done c res ->
+  thr_done (CState db (set_thr (c_thr c) i t)) res.
+Proof.
+  intros R NI TD k rs ret K. simpl. rewrite set_thr_other; [apply TD; exact K|].
+  intros ->. exact (not_in_order_res _ _ _ _ _ _ _ _ _ R NI K).
+Qed.
+
+Lemma sched_step_inv f jobs s0 c i c' :
+  sched_inv f jobs s0 c -> sched_step f jobs c i = Some c' -> sched_inv f jobs s0 c'.
+Proof.
+  intros [(order & res & R & ND & TD & ID)|(order & res & D & i0 & R & ND & NI & TD & ID & WD & DB & J)] H;
+    unfold sched_step in H; destruct (nth_error jobs i) as [j|] eqn:NJ; try discriminate.
+  - (* at rest: only a begin is possible *)
+    destruct (in_dec Nat.eq_dec i order) as [I|I].
+    { destruct (in_order_done _ _ _ _ _ _ _ _ R TD I) as (rs & ret & E). rewrite E in H. discriminate. }
+    rewrite (ID i I) in H. destruct (begin_rw (c_db c)) as [[s1 w0]|] eqn:B; [|discriminate].
+    injection H as <-. unfold begin_rw in B. destruct (writer (c_db c)) eqn:W; [discriminate|].
+    injection B as <- <-.
+    right. exists order, res, (c_db c), i.
+    split; [exact R|]. split; [exact ND|]. split; [exact I|].
+    split; [eapply thr_done_set; eauto|].
+    split. { intros k K1 K2. simpl. rewrite set_thr_other by exact K1. apply ID. exact K2. }
+    split; [exact W|]. split; [reflexivity|].
+    exists j, [], (j_body j), (committed (c_db c)), []. simpl. rewrite set_thr_same. auto.
+  - (* a call is inside *)
+    destruct J as (j0 & done & todo & w & rs & NJ0 & BODY & RUN & THR).
+    destruct (Nat.eq_dec i i0) as [->|NE].
+    + rewrite NJ0 in NJ. injection NJ as <-. rewrite THR in H. destruct todo as [|o todo].
+      * (* the end of the call *)
+        destruct (flow_at f (j_out j0)) as [e ret] eqn:FA. injection H as <-.
+        rewrite app_nil_r in BODY.
+        assert (managed_rw f D (j_body j0) (j_out j0) =
+                Some (finish_rw e (c_db c) w, rev rs, ret)) as M.
+        { rewrite (managed_rw_runs f D _ _ WD). rewrite BODY, RUN. unfold ends, returns.
+          rewrite FA, DB. reflexivity. }
+        left. exists (order ++ [i0]), (res ++ [(i0, rev rs, ret)]).
+        split; [eapply run_serial_snoc; eauto|].
+        split; [apply NoDup_snoc; assumption|].
+        split.
+        { intros k rs' ret' K. simpl. apply in_app_or in K. destruct K as [K|[K|[]]].
+          - rewrite set_thr_other; [apply TD; exact K|].
+            intros ->. exact (not_in_order_res _ _ _ _ _ _ _ _ _ R NI K).
+          - injection K as <- <- <-. apply set_thr_same. }
+        intros k K. simpl. rewrite set_thr_other.
+        -- apply ID; intros X; apply K; apply in_or_app; [right; left; auto|left; exact X].
+        -- intros ->. apply K. apply in_or_app. right. left. reflexivity.
+      * (* one operation of the closure *)
+        destruct (exec_op true o w) as [w' r] eqn:X. injection H as <-.
+        right. exists order, res, D, i0.
+        split; [exact R|]. split; [exact ND|]. split; [exact NI|].
+        split; [eapply thr_done_set; eauto|].
+        split. { intros k K1 K2. simpl. rewrite set_thr_other by exact K1. apply ID; assumption. }
+        split; [exact WD|]. split; [exact DB|].
+        exists j0, (done ++ [o]), todo, w', (r :: rs). simpl. rewrite set_thr_same.
+        split; [exact NJ0|]. split; [rewrite BODY, <- app_assoc; reflexivity|].
+        split; [|reflexivity]. rewrite run_ops_snoc, RUN, X. reflexivity.
+    + (* another goroutine: over, or it would have to begin *)
+      destruct (in_dec Nat.eq_dec i order) as [I|I].
+      { destruct (in_order_done _ _ _ _ _ _ _ _ R TD I) as (rs' & ret' & E). rewrite E in H. discriminate. }
+      rewrite (ID i NE I) in H. rewrite DB in H. discriminate.
+Qed.
+
+Lemma run_sched_inv f jobs s0 sch : forall c c',
+  sched_inv f jobs s0 c -> run_sched f jobs c sch = Some c' -> sched_inv f jobs s0 c'.
+Proof.
+  induction sch as [|i sch IH]; intros c c' I H; simpl in H.
+  - injection H as <-. exact I.
+  - destruct (sched_step f jobs c i) as [c1|] eqn:S; [|discriminate].
+    eapply IH; [|exact H]. eapply sched_step_inv; eauto.
+Qed.
+
+Definition quiescent (c : cstate) : Prop := forall i w todo rs, c_thr c i <> TRun w todo rs.
+
+Lemma sched_serializable f jobs s sch c :
+  run_sched f jobs (cinit s) sch = Some c -> quiescent c ->
+  exists order res,
+    NoDup order /\ run_serial f jobs s order = Some (c_db c, res) /\
+    map (fun x => fst (fst x)) res = order /\
+    (forall i rs ret, In (i, rs, ret) res -> c_thr c i = TDone rs ret) /\
+    (forall i, ~ In i order -> c_thr c i = TIdle).
+Proof.
+  intros H Q. destruct (run_sched_inv f jobs s sch _ _ (sched_inv_init f jobs s) H)
+    as [(order & res & R & ND & TD & ID)|(order & res & D & i0 & _ & _ & _ & _ & _ & _ & _ & J)].
+  - exists order, res. repeat split; auto. eapply run_serial_order; eauto.
+  - destruct J as (j0 & done & todo & w & rs & _ & _ & _ & THR). exfalso. eapply Q. exact THR.
+Qed.
+
+(** With a skeleton that rolls back on error and panic, the calls that failed
+    leave no trace: the serial run equals the serial run of the calls whose
+    closure returned nil, each applied exactly once. *)
+Definition job_ok (jobs : list job) (i : nat) : bool :=
+  match nth_error jobs i with
+  | Some (Job _ OOk) => true
+  | _ => false
+  end.
+
+Lemma managed_rw_failed_id f s body o s' rs r :
+  ends f o = TRollback -> managed_rw f s body o = Some (s', rs, r) -> s' = s.
+Proof.
+  intros E H. destruct (managed_rw_inv _ _ _ _ _ _ _ H) as (W & _ & _ & ->). rewrite E. simpl.
+  unfold rollback. simpl. destruct s; simpl in *; subst; reflexivity.
+Qed.
+
+Lemma run_serial_failed_invisible f jobs order : safe_rw f -> forall s D res,
+  run_serial f jobs s order = Some (D, res) ->
+  exists res', run_serial f jobs s (filter (job_ok jobs) order) = Some (D, res') /\
+               res' = filter (fun x => job_ok jobs (fst (fst x))) res.
+Proof.
+  intros S. induction order as [|a order IH]; intros s D res H; simpl in H.
+  - injection H as <- <-. exists []. auto.
+  - destruct (nth_error jobs a) as [ja|] eqn:NJ; [|discriminate].
+    destruct (managed_rw f s (j_body ja) (j_out ja)) as [[[s1 rs1] ret1]|] eqn:M; [|discriminate].
+    destruct (run_serial f jobs s1 order) as [[s2 l]|] eqn:R; [|discriminate].
+    injection H as <- <-. destruct (IH _ _ _ R) as (res' & R' & E').
+    destruct ja as [body o]. simpl in *.
+    assert (job_ok jobs a = match o with OOk => true | _ => false end) as JO
+      by (unfold job_ok; rewrite NJ; reflexivity).
+    rewrite JO. destruct o.
+    + simpl. rewrite NJ. simpl. rewrite M, R'. eexists. split; [reflexivity|]. rewrite E'. reflexivity.
+    + rewrite (managed_rw_failed_id _ _ _ _ _ _ _ (safe_rw_failed f OErr S ltac:(discriminate)) M) in R'.
+      eauto.
+    + rewrite (managed_rw_failed_id _ _ _ _ _ _ _ (safe_rw_failed f OPanic S ltac:(discriminate)) M) in R'.
+      eauto.
 Qed.
